@@ -4,34 +4,17 @@ Require Import Base EditDistance DictModel Fuzzy EditDistanceProofs DictProofs F
 From Coq Require Import Permutation Sorting.Sorted.
 
 (* ---------- the distance function ---------- *)
-(* the u8 two-row Wagner–Fischer of edit_distance.rs returns the Levenshtein distance whenever both
-   strings have at most 254 characters — debug and release build, whatever the reused buffers hold *)
+(* edit_distance_min_alloc (after fix 7a7de79) — u8 two-row Wagner–Fischer up to 254 characters, usize rows
+   beyond — never panics and returns the Levenshtein distance saturated at u8::MAX, for ALL strings, debug
+   and release arithmetic, whatever the reused buffers hold; hence the exact distance whenever it is <= 255 *)
 Theorem C15_wf_correct : forall dbg s t buf_a buf_b,
-  length s <= 254 -> length t <= 254 ->
-  exists buf_a' buf_b', wf_min_alloc dbg s t buf_a buf_b = Ok (lev s t, buf_a', buf_b').
-Proof. exact wf_min_alloc_correct. Qed.
+  (exists buf_a' buf_b', wf_min_alloc dbg s t buf_a buf_b = Ok (Nat.min (lev s t) 255, buf_a', buf_b')) /\
+  (lev s t <= 255 -> exists buf_a' buf_b', wf_min_alloc dbg s t buf_a buf_b = Ok (lev s t, buf_a', buf_b')).
+Proof. exact wf_min_alloc_total_correct. Qed.
 Check C15_wf_correct : forall dbg s t buf_a buf_b,
-  length s <= 254 -> length t <= 254 ->
-  exists buf_a' buf_b', wf_min_alloc dbg s t buf_a buf_b = Ok (lev s t, buf_a', buf_b').
+  (exists buf_a' buf_b', wf_min_alloc dbg s t buf_a buf_b = Ok (Nat.min (lev s t) 255, buf_a', buf_b')) /\
+  (lev s t <= 255 -> exists buf_a' buf_b', wf_min_alloc dbg s t buf_a buf_b = Ok (lev s t, buf_a', buf_b')).
 Print Assumptions C15_wf_correct.
-
-(* F19: the bound is sharp.  255 characters: debug build panics (u8 overflow), release build wraps
-   and reports distance 0 for strings at distance >= 254; 256 characters: assertion (debug) /
-   truncated row and index panic (release) *)
-Theorem C15_wf_u8_refuted :
-  (exists s t, length s = 255 /\ length t = 1 /\ wf_u8 true s t = Panic POverflow) /\
-  (exists s t, length s = 1 /\ length t = 255 /\ wf_u8 true s t = Panic POverflow) /\
-  (exists s t, length s = 255 /\ length t = 1 /\ wf_u8 false s t = Ok 0 /\ 254 <= lev s t) /\
-  (exists s t, length s = 256 /\ wf_u8 true s t = Panic PUnwrap) /\
-  (exists s t, length s = 256 /\ wf_u8 false s t = Panic PIndex).
-Proof. exact wf_u8_refuted. Qed.
-Check C15_wf_u8_refuted :
-  (exists s t, length s = 255 /\ length t = 1 /\ wf_u8 true s t = Panic POverflow) /\
-  (exists s t, length s = 1 /\ length t = 255 /\ wf_u8 true s t = Panic POverflow) /\
-  (exists s t, length s = 255 /\ length t = 1 /\ wf_u8 false s t = Ok 0 /\ 254 <= lev s t) /\
-  (exists s t, length s = 256 /\ wf_u8 true s t = Panic PUnwrap) /\
-  (exists s t, length s = 256 /\ wf_u8 false s t = Panic PIndex).
-Print Assumptions C15_wf_u8_refuted.
 
 (* `lev` (the textbook recursion) is the cost of a cheapest edit script *)
 Theorem C15_lev_is_min_edit_script : forall s t,
@@ -100,8 +83,27 @@ Check C15_fst_words : forall is_lower lower m,
   Permutation (fst_words_iter (fst_of_mutable is_lower lower m)) (mut_words m).
 Print Assumptions C15_fst_words.
 
+(* FstDictionary::new(words) for EVERY word list (after fix 71c98b2; colliding ids, repeated spellings and the
+   empty word included): its word map is a finite map keyed by id, its fuzzy index `words` holds exactly the
+   entries of that map, and words_iter lists exactly the spellings of the index *)
+Theorem C15_fst_new_in_step : forall is_lower lower ws,
+  wm_wf is_lower lower (f_full (fst_new is_lower lower ws)) /\
+  (forall w md, In (w, md) (f_words (fst_new is_lower lower ws)) <->
+                In (word_id is_lower lower w, mkentry md w) (f_full (fst_new is_lower lower ws))) /\
+  Permutation (f_words (fst_new is_lower lower ws)) (entries_of (f_full (fst_new is_lower lower ws))) /\
+  Permutation (fst_words_iter (fst_new is_lower lower ws)) (map fst (f_words (fst_new is_lower lower ws))).
+Proof. exact fst_new_in_step. Qed.
+Check C15_fst_new_in_step : forall is_lower lower ws,
+  wm_wf is_lower lower (f_full (fst_new is_lower lower ws)) /\
+  (forall w md, In (w, md) (f_words (fst_new is_lower lower ws)) <->
+                In (word_id is_lower lower w, mkentry md w) (f_full (fst_new is_lower lower ws))) /\
+  Permutation (f_words (fst_new is_lower lower ws)) (entries_of (f_full (fst_new is_lower lower ws))) /\
+  Permutation (fst_words_iter (fst_new is_lower lower ws)) (map fst (f_words (fst_new is_lower lower ws))).
+Print Assumptions C15_fst_new_in_step.
+
 (* FstDictionary::new(words) called directly: agrees with MutableDictionary::extend_words(words')
-   for any ordering words' of the same entries, provided the ids are pairwise distinct *)
+   for any ordering words' of the same entries, provided the ids are pairwise distinct (the premise is
+   needed: C15_fst_new_order_refuted) *)
 Theorem C15_fst_new_agrees : forall is_lower lower ws ws' q,
   NoDup (ids_of is_lower lower ws) -> Permutation ws' ws ->
   fst_contains is_lower lower (fst_new is_lower lower ws) q = mut_contains is_lower lower (mut_extend is_lower lower [] ws') q /\
@@ -118,6 +120,26 @@ Check C15_fst_new_agrees : forall is_lower lower ws ws' q,
   fst_canon is_lower lower (fst_new is_lower lower ws) q = mut_canon is_lower lower (mut_extend is_lower lower [] ws') q /\
   (forall id, fst_from_id (fst_new is_lower lower ws) id = mut_from_id (mut_extend is_lower lower [] ws') id).
 Print Assumptions C15_fst_new_agrees.
+
+(* FC15b (what remains of FC15a): of two spellings of one id FstDictionary::new keeps the last in SORTED order,
+   MutableDictionary::extend_words the last INSERTED — on ["abc", "Abc"] the two constructors answer
+   canonical-spelling, exact and metadata queries differently *)
+Theorem C15_fst_new_order_refuted : let ws := [(w_abc, 1); (w_Abc, 2)] in
+  let f := fst_new ascii_is_lower ascii_lower ws in
+  let m := mut_extend ascii_is_lower ascii_lower [] ws in
+  ~ NoDup (ids_of ascii_is_lower ascii_lower ws) /\
+  fst_canon ascii_is_lower ascii_lower f w_abc = Some w_abc /\ mut_canon ascii_is_lower ascii_lower m w_abc = Some w_Abc /\
+  fst_exact ascii_is_lower ascii_lower f w_Abc = false /\ mut_exact ascii_is_lower ascii_lower m w_Abc = true /\
+  fst_meta ascii_is_lower ascii_lower f w_abc = Some 1 /\ mut_meta ascii_is_lower ascii_lower m w_abc = Some 2.
+Proof. exact fst_new_order. Qed.
+Check C15_fst_new_order_refuted : let ws := [(w_abc, 1); (w_Abc, 2)] in
+  let f := fst_new ascii_is_lower ascii_lower ws in
+  let m := mut_extend ascii_is_lower ascii_lower [] ws in
+  ~ NoDup (ids_of ascii_is_lower ascii_lower ws) /\
+  fst_canon ascii_is_lower ascii_lower f w_abc = Some w_abc /\ mut_canon ascii_is_lower ascii_lower m w_abc = Some w_Abc /\
+  fst_exact ascii_is_lower ascii_lower f w_Abc = false /\ mut_exact ascii_is_lower ascii_lower m w_Abc = true /\
+  fst_meta ascii_is_lower ascii_lower f w_abc = Some 1 /\ mut_meta ascii_is_lower ascii_lower m w_abc = Some 2.
+Print Assumptions C15_fst_new_order_refuted.
 
 (* ---------- a merged dictionary is the (first-wins) union of its parts ---------- *)
 Theorem C15_merged_union : forall cs w,
@@ -155,35 +177,45 @@ Check C15_merged_mutable_concat : forall is_lower lower dbg ms w,
   merged_exact (map (mut_ops is_lower lower dbg) ms) w = existsb (fun m => mut_exact is_lower lower m w) ms.
 Print Assumptions C15_merged_mutable_concat.
 
+(* MergedDictionary's content hash / PartialEq (after fix f2dc537), for any hash function: the hash of a
+   child does not depend on the order in which its hash map iterates, so two merged dictionaries whose
+   children list the same words compare equal *)
+Theorem C15_merged_hash_order_independent : forall hash_one,
+  (forall ws ws', Permutation ws ws' -> hash_words hash_one ws = hash_words hash_one ws') /\
+  (forall cs cs', Forall2 (@Permutation text) cs cs' -> merged_eqb hash_one cs cs' = true).
+Proof. exact merged_hash_order_independent. Qed.
+Check C15_merged_hash_order_independent : forall hash_one,
+  (forall ws ws', Permutation ws ws' -> hash_words hash_one ws = hash_words hash_one ws') /\
+  (forall cs cs', Forall2 (@Permutation text) cs cs' -> merged_eqb hash_one cs cs' = true).
+Print Assumptions C15_merged_hash_order_independent.
+
 (* ---------- fuzzy search: MutableDictionary ----------
-   with query and words of at most 254 characters the search neither panics nor overflows (debug or
-   release arithmetic), and what the model returns is one of the outcomes the unstable sort over the
-   hash-ordered candidates may produce *)
+   for EVERY dictionary and query (no length bound since fix 7a7de79) the search neither panics nor
+   overflows (debug or release arithmetic), and what it returns is the outcome of sorting the scored
+   candidates by (distance, word) and taking k *)
 Theorem C15_mutable_fuzzy_total : forall is_lower lower dbg m q d k,
   wm_wf is_lower lower m ->
-  length (normalized q) <= 254 -> length (to_lower is_lower lower (normalized q)) <= 254 ->
-  (forall w, In w (mut_words m) -> length w <= 254) ->
   exists r, mut_fuzzy is_lower lower dbg m q d k = Ok r /\ mut_fuzzy_outcome is_lower lower m q d k r.
 Proof. exact mut_fuzzy_total. Qed.
 Check C15_mutable_fuzzy_total : forall is_lower lower dbg m q d k,
   wm_wf is_lower lower m ->
-  length (normalized q) <= 254 -> length (to_lower is_lower lower (normalized q)) <= 254 ->
-  (forall w, In w (mut_words m) -> length w <= 254) ->
   exists r, mut_fuzzy is_lower lower dbg m q d k = Ok r /\ mut_fuzzy_outcome is_lower lower m q d k r.
 Print Assumptions C15_mutable_fuzzy_total.
 
-(* every such outcome: each result is a (non-empty) dictionary word carrying that word's metadata, its
-   distance is min(lev q' w, lev (lower q') w) <= d for the normalised query q'; results are ordered by
-   distance, at most k, no word twice; and complete up to the cap — a non-empty dictionary word within
-   the bound of q' (or of lower q' when that has the same length) is returned unless the result is
-   full of words that are at least as close *)
+(* the outcome: each result is a (non-empty) dictionary word carrying that word's metadata, its distance is
+   min(lev q' w, lev (lower q') w) — saturated at 255, i.e. exact for every max_distance <= 254 — and <= d for
+   the normalised query q'; results are ordered by (distance, word), at most k, no word twice; and complete
+   up to the cap — a non-empty dictionary word within the bound of q' (or of lower q' when that has the same
+   length) is returned unless the result is full of words that are at least as close *)
 Theorem C15_mutable_fuzzy : forall is_lower lower m q d k r,
   wm_wf is_lower lower m -> mut_fuzzy_outcome is_lower lower m q d k r ->
   let qn := normalized q in
   let ql := to_lower is_lower lower qn in
   (forall x, In x r ->
      (exists e, In (word_id is_lower lower (r_word x), e) m /\ e_canon e = r_word x /\ e_meta e = r_meta x) /\
-     r_dist x = min_dist qn ql (r_word x) /\ r_dist x <= d /\ r_word x <> []) /\
+     r_dist x = Nat.min (min_dist qn ql (r_word x)) 255 /\ r_dist x <= d /\
+     (d <= 254 -> r_dist x = min_dist qn ql (r_word x)) /\ r_word x <> []) /\
+  StronglySorted fres_order r /\
   StronglySorted (fun a b => r_dist a <= r_dist b) r /\ length r <= k /\
   NoDup (map r_word r) /\
   (forall k0 e, In (k0, e) m -> e_canon e <> [] ->
@@ -197,7 +229,9 @@ Check C15_mutable_fuzzy : forall is_lower lower m q d k r,
   let ql := to_lower is_lower lower qn in
   (forall x, In x r ->
      (exists e, In (word_id is_lower lower (r_word x), e) m /\ e_canon e = r_word x /\ e_meta e = r_meta x) /\
-     r_dist x = min_dist qn ql (r_word x) /\ r_dist x <= d /\ r_word x <> []) /\
+     r_dist x = Nat.min (min_dist qn ql (r_word x)) 255 /\ r_dist x <= d /\
+     (d <= 254 -> r_dist x = min_dist qn ql (r_word x)) /\ r_word x <> []) /\
+  StronglySorted fres_order r /\
   StronglySorted (fun a b => r_dist a <= r_dist b) r /\ length r <= k /\
   NoDup (map r_word r) /\
   (forall k0 e, In (k0, e) m -> e_canon e <> [] ->
@@ -205,6 +239,29 @@ Check C15_mutable_fuzzy : forall is_lower lower m q d k r,
      (exists x, In x r /\ r_word x = e_canon e) \/
      (length r = k /\ forall x, In x r -> r_dist x <= min_dist qn ql (e_canon e))).
 Print Assumptions C15_mutable_fuzzy.
+
+(* (fix 5a329ea) the result is a function of the SET of entries: two word maps holding the same entries in
+   different (hash) orders — and the debug and the release build — give the same result, ties included *)
+Theorem C15_mutable_fuzzy_deterministic : forall is_lower lower dbg dbg' m m' q d k,
+  wm_wf is_lower lower m -> Permutation m m' ->
+  mut_fuzzy is_lower lower dbg m q d k = mut_fuzzy is_lower lower dbg' m' q d k.
+Proof. exact mut_fuzzy_deterministic. Qed.
+Check C15_mutable_fuzzy_deterministic : forall is_lower lower dbg dbg' m m' q d k,
+  wm_wf is_lower lower m -> Permutation m m' ->
+  mut_fuzzy is_lower lower dbg m q d k = mut_fuzzy is_lower lower dbg' m' q d k.
+Print Assumptions C15_mutable_fuzzy_deterministic.
+
+(* F19b (what remains of F19): the u8 result saturates — with max_distance = 255, a query of 256 a's and the
+   dictionary {"b"}, the word is returned at "distance 255" although its distance is 256 > bound.  The
+   premise d <= 254 of the exact-distance clause above is sharp. *)
+Theorem C15_mutable_fuzzy_saturation_refuted : let m := mut_extend ascii_is_lower ascii_lower [] [(b_1, 1)] in
+  mut_fuzzy ascii_is_lower ascii_lower true m (a_n 256) 255 10 = Ok [mkfres b_1 255 1] /\
+  min_dist (normalized (a_n 256)) (to_lower ascii_is_lower ascii_lower (normalized (a_n 256))) b_1 = 256.
+Proof. exact mut_fuzzy_saturation. Qed.
+Check C15_mutable_fuzzy_saturation_refuted : let m := mut_extend ascii_is_lower ascii_lower [] [(b_1, 1)] in
+  mut_fuzzy ascii_is_lower ascii_lower true m (a_n 256) 255 10 = Ok [mkfres b_1 255 1] /\
+  min_dist (normalized (a_n 256)) (to_lower ascii_is_lower ascii_lower (normalized (a_n 256))) b_1 = 256.
+Print Assumptions C15_mutable_fuzzy_saturation_refuted.
 
 (* ---------- fuzzy search: FstDictionary ----------
    under the stream contract (for this dictionary's word list and this bound) the zip loop never
@@ -268,28 +325,6 @@ Check C15_fst_zip_incomplete : let f := fst_new ascii_is_lower ascii_lower [(w_A
   fst_contains ascii_is_lower ascii_lower f w_AB = true.
 Print Assumptions C15_fst_zip_incomplete.
 
-(* FC15a: FstDictionary::new called directly on two spellings of one id ("abc", "Abc"): the premise of
-   C15_fst_new_agrees fails, the exact queries differ from MutableDictionary's, and the fuzzy search
-   returns "Abc", which words_iter does not list, with metadata get_word_metadata contradicts *)
-Theorem C15_fst_new_collision_refuted : let ws := [(w_abc, 1); (w_Abc, 2)] in
-  let f := fst_new ascii_is_lower ascii_lower ws in
-  let m := mut_extend ascii_is_lower ascii_lower [] ws in
-  ~ NoDup (ids_of ascii_is_lower ascii_lower ws) /\
-  mut_exact ascii_is_lower ascii_lower m w_Abc = true /\ fst_exact ascii_is_lower ascii_lower f w_Abc = false /\
-  In (w_Abc, 2) (f_words f) /\ ~ In w_Abc (fst_words_iter f) /\
-  fst_meta ascii_is_lower ascii_lower f w_Abc = Some 1 /\
-  fst_fuzzy (spec_stream lev) f w_Abc w_abc 1 10 = Ok [mkfres w_Abc 0 2; mkfres w_abc 0 1].
-Proof. exact fst_new_collision. Qed.
-Check C15_fst_new_collision_refuted : let ws := [(w_abc, 1); (w_Abc, 2)] in
-  let f := fst_new ascii_is_lower ascii_lower ws in
-  let m := mut_extend ascii_is_lower ascii_lower [] ws in
-  ~ NoDup (ids_of ascii_is_lower ascii_lower ws) /\
-  mut_exact ascii_is_lower ascii_lower m w_Abc = true /\ fst_exact ascii_is_lower ascii_lower f w_Abc = false /\
-  In (w_Abc, 2) (f_words f) /\ ~ In w_Abc (fst_words_iter f) /\
-  fst_meta ascii_is_lower ascii_lower f w_Abc = Some 1 /\
-  fst_fuzzy (spec_stream lev) f w_Abc w_abc 1 10 = Ok [mkfres w_Abc 0 2; mkfres w_abc 0 1].
-Print Assumptions C15_fst_new_collision_refuted.
-
 (* ---------- fuzzy search: MergedDictionary ----------
    a function of what the children return: their results concatenated, stably sorted by distance, cut at k *)
 Theorem C15_merged_fuzzy_spec : forall cs q lq d k rs,
@@ -341,8 +376,43 @@ Example C15_wf_nonvacuous :
   let kitten := [107; 105; 116; 116; 101; 110]%N in
   let sitting := [115; 105; 116; 116; 105; 110; 103]%N in
   length kitten <= 254 /\ length sitting <= 254 /\ lev kitten sitting = 3 /\
-  wf_u8 true kitten sitting = Ok 3 /\ wf_u8 false kitten sitting = Ok 3 /\ lev_fast kitten sitting = 3.
+  wf_u8 true kitten sitting = Ok 3 /\ wf_u8 false kitten sitting = Ok 3 /\ lev_fast kitten sitting = 3 /\
+  wf_long kitten sitting = Ok 3 /\
+  wf_u8 true (a_n 256) b_1 = Ok 255 /\ wf_u8 false (a_n 256) b_1 = Ok 255 /\ lev (a_n 256) b_1 = 256.
 Proof. cbv zeta. repeat split; try (cbn; lia); vm_compute; reflexivity. Qed.
+
+(* HISTORY (F19, fixed by 7a7de79): the function as it was — u8 rows for every length.  255 characters: debug
+   build panicked (u8 overflow), release build wrapped to distance 0; 256 characters: assertion (debug) /
+   truncated row and index panic (release) *)
+Example C15_wf_u8_old_refuted :
+  (exists s t, length s = 255 /\ length t = 1 /\ wf_u8_old true s t = Panic POverflow) /\
+  (exists s t, length s = 1 /\ length t = 255 /\ wf_u8_old true s t = Panic POverflow) /\
+  (exists s t, length s = 255 /\ length t = 1 /\ wf_u8_old false s t = Ok 0 /\ 254 <= lev s t) /\
+  (exists s t, length s = 256 /\ wf_u8_old true s t = Panic PUnwrap) /\
+  (exists s t, length s = 256 /\ wf_u8_old false s t = Panic PIndex).
+Proof. exact wf_u8_old_refuted. Qed.
+
+(* HISTORY (FC15a, fixed by 71c98b2): FstDictionary::new as it was kept "Abc" in its fuzzy index although its
+   word map had dropped it; now index and map hold the one spelling "abc" *)
+Example C15_fst_new_collision_old_refuted : let ws := [(w_abc, 1); (w_Abc, 2)] in
+  let f := fst_new_old ascii_is_lower ascii_lower ws in
+  In (w_Abc, 2) (f_words f) /\ ~ In w_Abc (fst_words_iter f) /\
+  fst_meta ascii_is_lower ascii_lower f w_Abc = Some 1 /\
+  fst_fuzzy (spec_stream lev) f w_Abc w_abc 1 10 = Ok [mkfres w_Abc 0 2; mkfres w_abc 0 1].
+Proof. exact fst_new_collision_old. Qed.
+
+Example C15_fst_new_collision_now : let ws := [(w_abc, 1); (w_Abc, 2)] in
+  let f := fst_new ascii_is_lower ascii_lower ws in
+  f_words f = [(w_abc, 1)] /\ fst_words_iter f = [w_abc] /\
+  fst_fuzzy (spec_stream lev) f w_Abc w_abc 1 10 = Ok [mkfres w_abc 0 1].
+Proof. exact fst_new_collision_now. Qed.
+
+(* HISTORY (fixed by f2dc537): the old content hash fed all characters into one hasher — whatever the hasher,
+   {"ab","c"}, {"a","bc"} and {"abc"} collided *)
+Example C15_merged_hash_old_refuted : forall hs,
+  hash_words_old hs [[97; 98]; [99]]%N = hash_words_old hs [[97]; [98; 99]]%N /\
+  hash_words_old hs [[97; 98]; [99]]%N = hash_words_old hs [[97; 98; 99]]%N.
+Proof. exact hash_words_old_collision. Qed.
 
 (* quirks of the length window of MutableDictionary::fuzzy_match (outside the property's claim: the
    query is not lower-case / the word is empty) *)
@@ -366,10 +436,10 @@ Example C15_fuzzy_nonvacuous :
   let m := mut_extend ascii_is_lower ascii_lower [] ws in
   let f := fst_of_mutable ascii_is_lower ascii_lower m in
   let q := [97; 98; 100]%N in
-  mut_fuzzy ascii_is_lower ascii_lower true m q 1 10 = Ok [mkfres w_abc 1 1; mkfres w_ab 1 2] /\
+  mut_fuzzy ascii_is_lower ascii_lower true m q 1 10 = Ok [mkfres w_ab 1 2; mkfres w_abc 1 1] /\
   fst_fuzzy (spec_stream lev) f q q 1 10 = Ok [mkfres w_ab 1 2; mkfres w_abc 1 1] /\
   merged_fuzzy [mut_ops ascii_is_lower ascii_lower true m; fst_ops ascii_is_lower ascii_lower (spec_stream lev) f] q q 1 3
-    = Ok [mkfres w_abc 1 1; mkfres w_ab 1 2; mkfres w_ab 1 2].
+    = Ok [mkfres w_ab 1 2; mkfres w_abc 1 1; mkfres w_ab 1 2].
 Proof. exact fuzzy_example. Qed.
 
 (* the premise of C15_fst_new_agrees is satisfiable, and fails exactly when two spellings share an id *)
